@@ -44,6 +44,11 @@ def main():
                 if cand.endswith(f):
                     dst = cand
                     break
+            if dst is None and f.endswith("_test.go"):
+                # fall back to the package named in the go test command
+                m2 = re.findall(r"go test[^\n]*?\s\./((?:pkg|cmd)/[\w/\-\.]+?)/?(?:\s|$)", run_txt)
+                if m2:
+                    dst = m2[-1].rstrip("/") + "/" + f
             if dst is None:
                 raise SystemExit("cannot find placement of %s in RUN.txt" % f)
             os.makedirs(os.path.dirname(os.path.join(wt, dst)), exist_ok=True)
